@@ -9,7 +9,7 @@ Definition valid (a b : state) : bool :=
 
 (* the states a workflow execution can hold (tasks additionally use WAITING,
    DELAYED, SKIPPED) *)
-Definition wf_state (s : state) : bool :=
+Definition is_wf_state (s : state) : bool :=
   mem s [IDLE; RUNNING; PAUSED; SUCCESS; ERROR; CANCELLED].
 
 (* the documented moves of property C03 *)
@@ -31,12 +31,12 @@ Lemma success_is_terminal b : valid SUCCESS b = true -> b = SUCCESS.
 Proof. destruct b; vm_compute; congruence. Qed.
 
 Lemma wf_moves_exact a b :
-  wf_state a = true -> wf_state b = true -> state_eqb a b = false ->
+  is_wf_state a = true -> is_wf_state b = true -> state_eqb a b = false ->
   valid a b = (documented_wf_move a b || undocumented_idle_move a b).
 Proof. destruct a, b; vm_compute; congruence. Qed.
 
 Lemma leave_error_only_by_rerun a b :
-  (a = ERROR \/ a = CANCELLED) -> wf_state b = true -> valid a b = true -> b = a \/ b = RUNNING.
+  (a = ERROR \/ a = CANCELLED) -> is_wf_state b = true -> valid a b = true -> b = a \/ b = RUNNING.
 Proof. intros [->| ->]; destruct b; vm_compute; intros; try congruence; auto. Qed.
 
 Lemma valid_same a : is_valid a = true -> valid a a = true.
